@@ -15,7 +15,7 @@ RULE = (
     "fresh CID and must be accepted completely and equal the written values (modulo fixed padding). A case is (CID, row "
     "sequence), distinct by digest, non-trivial with at least one accepted and one rejected row."
 )
-ASSUMPTIONS = ["delimited output is compared with Python's csv.writer for the CID's (default) dialect; under fixed 'any' any of the three delimiters is accepted"]
+ASSUMPTIONS = ["delimited output is compared with Python's csv.writer for the CID's (default) dialect; under 'any' (also the default) any of the three delimiters is accepted"]
 OPS = ["<", "<=", "==", "!=", ">=", ">"]
 
 
@@ -23,6 +23,8 @@ def gen_case(rng, kind):
     store = "delimited-stream" if kind == "delimited" else "fixed-stream"
     model, table = c04.gen_case(rng, store)
     model.header = rng.choice([0, 0, 1])
+    if kind == "delimited":
+        model.line_delimiter = rng.choice(["lf", "cr", "crlf", "any", None])
     if kind == "fixed":
         model.line_delimiter = rng.choice(["lf", "cr", "crlf", "any", None, "none", "none"])
         if rng.random() < 0.25:
@@ -144,9 +146,10 @@ def check_case(ctx, model, rows, cid_by_path=False):
             grown = after[len(before):] if after.startswith(before) else None
             acceptable = encode(model, row)
             if model.kind == "delimited":
-                # the line ending of delimited output is not fixed by the statement: any of the three is fine
+                # lines end with the declared line delimiter; under 'any' (the default) any of the three is fine
                 body = acceptable[0][:-2]
-                acceptable = [body + d for d in ("\r\n", "\n", "\r")]
+                declared = {"lf": "\n", "cr": "\r", "crlf": "\r\n"}.get(model.line_delimiter)
+                acceptable = [body + d for d in (("\r\n", "\n", "\r") if declared is None else (declared,))]
             if grown is None or grown not in acceptable:
                 ctx.case(case, True)
                 ctx.violation("C14:emitted-text", case, "the text emitted for row %d is not the encoding of the row" % (index + 1),
